@@ -37,6 +37,13 @@ func (m *F84Model) Distance(seq1 []uint8, seq2 []uint8, weights []float64) (floa
 
 	trS, trV, _, _, total := countMutations(seq1, seq2, m.selectedSites, weights)
 	trS, trV = trS/total, trV/total
+	if trS == 0 && trV == 0 {
+		return 0, nil
+	}
+	if 1.0-trS/(2.0*m.a)-(m.a-m.b)*trV/(2.0*m.a*m.c) < 0 || 1-trV/(2.0*m.c) < 0 {
+		// Saturated: the distance is undefined (also with the gamma correction)
+		return math.NaN(), nil
+	}
 	if m.gamma {
 		dist = 2.0 * m.alpha * (m.a*math.Pow((1.0-trS/(2.0*m.a)-(m.a-m.b)*trV/(2.0*m.a*m.c)), -1./m.alpha) +
 			(m.b+m.c-m.a)*math.Pow((1-trV/(2.0*m.c)), -1./m.alpha) -
